@@ -157,3 +157,24 @@ Proof.
     destruct (IH _ _ R) as [I1 I2]. split; [|cbn [length]; lia].
     intros [->|Hin]; [rewrite Ascii.eqb_refl in E; discriminate | now apply I1].
 Qed.
+
+Lemma rs_zero_ok seg r : In zero seg -> forall fuel, exists s, rs (seg ++ r) fuel = Ok s.
+Proof.
+  induction seg as [|c seg IH]; intros Hin fuel; [destruct Hin|].
+  destruct fuel as [|f]; [eexists; reflexivity|]. cbn [rs app].
+  destruct (Ascii.eqb c zero) eqn:E; [eexists; reflexivity|].
+  destruct Hin as [->|Hin]; [rewrite Ascii.eqb_refl in E; discriminate|].
+  destruct (IH Hin f) as [s ->]. eexists; reflexivity.
+Qed.
+
+Lemma mul_succ_le a b c : a + 1 <= b -> a * c + c <= b * c.
+Proof. intros H. pose proof (N.mul_le_mono_r _ _ c H). lia. Qed.
+Lemma mul_le_r a b c : a <= b -> a * c <= b * c.
+Proof. apply N.mul_le_mono_r. Qed.
+
+Lemma updN2_app_l a rest o1 v1 o2 v2 : o1 + lenN v1 <= lenN a -> o2 + lenN v2 <= lenN a ->
+  updN (updN (a ++ rest) o1 v1) o2 v2 = updN (updN a o1 v1) o2 v2 ++ rest.
+Proof.
+  intros H1 H2. rewrite updN_app_l by exact H1. rewrite updN_app_l; [reflexivity|].
+  rewrite lenN_updN by exact H1. exact H2.
+Qed.
